@@ -64,7 +64,14 @@ class Fn:
             return n
         sd = self.bnd.single_def(l)
         if sd is not None and sd[2]["k"] == "call":
-            return "ret(%s)" % callee_name(sd[2]["t"]).split("::")[-1]
+            t = sd[2]["t"]
+            nm = callee_name(t).split("::")[-1]
+            if nm == "branch" and len(t["args"]) == 1 and t["args"][0]["k"] in ("copy", "move") and not t["args"][0]["place"]["p"]:
+                # `f(..)?`: name the call whose result is being propagated
+                inner = self.bnd.single_def(t["args"][0]["place"]["l"])
+                if inner is not None and inner[2]["k"] == "call":
+                    return "ret(%s)?" % callee_name(inner[2]["t"]).split("::")[-1]
+            return "ret(%s)" % nm
         return "tmp"
 
     def show_base(self, base):
@@ -408,6 +415,13 @@ def run(ctx):
                                                           for _i, t2 in x.calls() if t2.get("target") is None)
                              for x in [cg.nodes[pp] for pp in R] if x.npath == e["fn"])]
             cands = moved[:1]
+            k_dup = 0
+        if not cands and kind in ("P3", "P4"):
+            # a review that rests on what a callee returns (and carries a machine-checked premise about that callee)
+            # applies wherever the same requirement on that callee's result is met again — a helper the code was moved to
+            cands = [e for e in reviewed if e.get("callee") and e["kind"] == kind and e["req"] == areq and
+                     ("ret(%s)" % e["callee"]) in what and e.get("premises")]
+            cands = cands[:1]
             k_dup = 0
         if os.environ.get("C18_DUMP"):
             dump.append({"fn": b.npath, "kind": kind, "req": areq, "facts": afacts, "line": line, "what": what})
@@ -797,4 +811,100 @@ def loop_terminates(fn, head, blocks):
             if head in r:
                 continue
             return True, "counter `%s` moves strictly towards the loop-invariant bound on every iteration" % fn.lname(c)
+    sd_ok, sd_why = structural_descent(fn, head, blocks, exits)
+    if sd_ok:
+        return True, sd_why
     return False, "no iterator and no counter that provably advances towards a loop-invariant bound on every path around the loop"
+
+
+_TREE_TYPES = ("unifiable::Unifiable",)     # owned trees: Box / Vec / String fields only, no Rc, RefCell or raw pointer
+
+
+def _rooted_in_field_of(bnd, l, c, blocks, seen=None, through_field=False):
+    """Is local l, as defined inside the loop, (a reference to / the moved value of) something reached from the
+    cursor c through at least one field projection — i.e. a strict part of what c denoted?"""
+    seen = seen or set()
+    if l in seen:
+        return False
+    seen = seen | {l}
+    ds = [(bb, k, rv) for bb, k, rv in bnd.defs.get(l, []) if bb in blocks]
+    if not ds:
+        return False
+    for bb, k, rv in ds:
+        pl = None
+        if rv.get("k") == "use" and rv["op"]["k"] in ("copy", "move"):
+            pl = rv["op"]["place"]
+        elif rv.get("k") in ("ref", "rawptr"):
+            pl = rv["place"]
+        elif rv.get("k") == "cast" and rv["op"]["k"] in ("copy", "move"):
+            pl = rv["op"]["place"]
+        elif rv.get("k") == "call" and rv["t"].get("args"):
+            # `boxed.as_mut()`, `&mut *boxed` spelled as a Deref / AsMut call: the value behind the same box
+            nm_ = callee_name(rv["t"])
+            a0 = rv["t"]["args"][0]
+            if nm_.split("::")[-1] in ("as_mut", "as_ref", "deref", "deref_mut", "borrow", "borrow_mut") and \
+                    ("Box<" in nm_ or "boxed::Box" in (rv["t"]["callee"].get("path_args") or "")) and a0["k"] in ("copy", "move"):
+                pl = a0["place"]
+        if pl is None:
+            return False
+        fld = through_field or any(isinstance(x, dict) and "field" in x and "SLinkedList" in str(x.get("of")) or
+                                   (isinstance(x, dict) and "field" in x and any(t_ in str(x.get("of")) for t_ in _TREE_TYPES))
+                                   for x in pl["p"])
+        if pl["l"] == c:
+            if not fld:
+                return False
+            continue
+        if not _rooted_in_field_of(bnd, pl["l"], c, blocks, seen, fld):
+            return False
+    return True
+
+
+def structural_descent(fn, head, blocks, exits):
+    """`while let Node{next, ..} = cursor { ..; cursor = next }` over an owned tree: an exit tests the variant of what
+    the cursor denotes, and on every path round the loop the cursor is replaced by a strict part of what it denoted
+    (reached through a field). The tree is finite (Box / Vec fields only), so the walk ends."""
+    b, bnd = fn.b, fn.bnd
+    cands = set()
+    for x, s_ in exits:
+        t = b.blocks[x]["term"]
+        if t["k"] != "switch" or t["discr"]["k"] not in ("copy", "move"):
+            continue
+        sd = bnd.single_def(t["discr"]["place"]["l"])
+        if sd and sd[2].get("k") == "discriminant":
+            pl = sd[2]["place"]
+            ty = pl.get("ty", "")
+            if ty in _TREE_TYPES and (not pl["p"] or pl["p"] == ["deref"]):
+                cands.add(pl["l"])
+    for c in sorted(cands):
+        defs_in = [(bb, k) for bb, k, rv in bnd.defs.get(c, []) if bb in blocks]
+        if not defs_in:
+            continue
+        if not _rooted_in_field_of(bnd, c, c, blocks, seen=set(), through_field=False) and not all(
+                _def_descends(bnd, c, bb, k, blocks) for bb, k in defs_in):
+            continue
+        inc_blocks = {bb for bb, k in defs_in}
+        sub = [[s2 for s2 in bnd.cfg.succ[i] if s2 in blocks and s2 not in inc_blocks] if i in blocks else []
+               for i in range(len(b.blocks))]
+        r = reachable(sub, [s2 for s2 in bnd.cfg.succ[head] if s2 in blocks and s2 not in inc_blocks])
+        if head in r or head in inc_blocks and False:
+            continue
+        return True, "cursor `%s` over an owned tree is replaced by one of its own parts on every iteration; the loop leaves on its variant" % fn.lname(c)
+    return False, ""
+
+
+def _def_descends(bnd, c, bb, k, blocks):
+    for b2, k2, rv in bnd.defs.get(c, []):
+        if (b2, k2) != (bb, k):
+            continue
+        pl = None
+        if rv.get("k") == "use" and rv["op"]["k"] in ("copy", "move"):
+            pl = rv["op"]["place"]
+        elif rv.get("k") in ("ref", "rawptr"):
+            pl = rv["place"]
+        if pl is None:
+            return False
+        fld = any(isinstance(x, dict) and "field" in x and any(t_ in str(x.get("of")) for t_ in _TREE_TYPES) for x in pl["p"])
+        if pl["l"] == c:
+            return fld
+        return _rooted_in_field_of(bnd, pl["l"], c, blocks, {c}, fld)
+    return False
